@@ -179,6 +179,11 @@ func joinErr(code int16, memberID string) rc.Msg {
 func (c *Cluster) findCoordinator(b *Broker, r *Req) rc.Msg {
 	key := r.Body.Str("key")
 	g := c.group(key)
+	if r.Body.I8("key_type") == 1 {
+		// transactional ids are a namespace of their own, with coordinators
+		// of their own
+		g = c.group("txn:" + key)
+	}
 	r.Applied = true
 	if r.Fault == "error-code" {
 		code := []int16{ErrCoordinatorNotAvailable, ErrCoordinatorLoadInProgress}[c.S.T.Intn("fault", 2)]
